@@ -13,7 +13,24 @@ from .facts import Facts
 SCRATCH_ROOT = "/var/tmp"
 
 
+def repo_state_lock(exclusive):
+    """seed-eval patches /repo's working tree for a moment; scratch copies must not be taken in that window."""
+    import fcntl
+    os.makedirs(extract.CACHE, exist_ok=True)
+    fh = open(os.path.join(extract.CACHE, "repo-state.lock"), "w")
+    fcntl.flock(fh, fcntl.LOCK_EX if exclusive else fcntl.LOCK_SH)
+    return fh
+
+
 def make_scratch(worker):
+    lock = repo_state_lock(False)
+    try:
+        return _make_scratch(worker)
+    finally:
+        lock.close()
+
+
+def _make_scratch(worker):
     d = os.path.join(SCRATCH_ROOT, "xsv-variant-w%s" % worker)
     if os.path.exists(d):
         shutil.rmtree(d)
